@@ -31,6 +31,7 @@ type spliceSite struct {
 	parent *spliceSite // enclosing detour (nil: B is a block of the root function)
 	idx    int         // position among B's detours
 	guard  bool        // B's terminating If tests the helper's result
+	tail   bool        // B's terminating Return returns the helper's results: its exits are B's function's
 	ret    map[*ssa.BasicBlock][]int // guard: helper return block -> successor slots of B
 	env    []*Term     // the helper's parameters as terms of the root frame
 	depth  int
@@ -164,6 +165,22 @@ func (p *Prog) detours(b *ssa.BasicBlock, parent *spliceSite) []*spliceSite {
 	}
 	if guardSite != nil {
 		out = append(out, guardSite)
+	}
+	// `return helper(...)`: the helper's exits are this function's exits
+	if ret, ok := b.Instrs[len(b.Instrs)-1].(*ssa.Return); ok {
+		if call, ok := passthroughCall(ret.Results); ok && call.Parent() == fn && call.Block() == b {
+			if h := call.Call.StaticCallee(); p.newHelper(h) && !onStack(h) && len(allReturns(h)) > 0 {
+				// replace the procedure detour of the same call, if any
+				var kept []*spliceSite
+				for _, sp := range out {
+					if sp.Call != call {
+						kept = append(kept, sp)
+					}
+				}
+				p.info(h)
+				out = append(kept, &spliceSite{B: b, H: h, Call: call, parent: parent, tail: true, depth: depth + 1, env: mkEnv(call)})
+			}
+		}
 	}
 	for i, sp := range out {
 		sp.idx = i
@@ -299,6 +316,9 @@ func succNodes(n Node, cut map[Edge]bool) []Node {
 	if n.Site != nil && len(b.Instrs) > 0 {
 		if _, isRet := b.Instrs[len(b.Instrs)-1].(*ssa.Return); isRet {
 			sp := n.Site
+			if sp.tail {
+				return nil // an exit of the enclosing function
+			}
 			if sp.guard {
 				var out []Node
 				for _, s := range sp.ret[b] {
@@ -383,4 +403,28 @@ func markHelperCounters(t *Term) *Term {
 		nt.A = append(nt.A, markHelperCounters(a))
 	}
 	return nt
+}
+
+// tailChain: every detour from site up to the root is a tail call, so a return reached
+// in this context is an exit of the root function.
+func tailChain(sp *spliceSite) bool {
+	for s := sp; s != nil; s = s.parent {
+		if !s.tail {
+			return false
+		}
+	}
+	return true
+}
+
+// tailReturn: ret returns exactly the results of a call of a new helper made in its own block.
+func (p *Prog) tailReturn(ret *ssa.Return) (*ssa.Function, bool) {
+	call, ok := passthroughCall(ret.Results)
+	if !ok || call.Parent() != ret.Parent() || call.Block() != ret.Block() {
+		return nil, false
+	}
+	h := call.Call.StaticCallee()
+	if !p.newHelper(h) || h == ret.Parent() || len(allReturns(h)) == 0 {
+		return nil, false
+	}
+	return h, true
 }
